@@ -27,15 +27,15 @@ type fac struct {
 type AKind int
 
 const (
-	ASym  AKind = iota // scalar real symbol
-	ALeaf              // element of a named tensor at an index tuple
-	AFn                // function application
-	APow               // base^exponent with a non-integer-constant exponent
-	ASum               // a parenthesised sum used as a factor (denominators, large powers)
-	AInd               // indicator of a condition (0/1)
-	ASigma             // Σ_{v=0}^{N-1} body
-	ABigMax            // max_{v<N} body
-	ABigMin            // min_{v<N} body
+	ASym    AKind = iota // scalar real symbol
+	ALeaf                // element of a named tensor at an index tuple
+	AFn                  // function application
+	APow                 // base^exponent with a non-integer-constant exponent
+	ASum                 // a parenthesised sum used as a factor (denominators, large powers)
+	AInd                 // indicator of a condition (0/1)
+	ASigma               // Σ_{v=0}^{N-1} body
+	ABigMax              // max_{v<N} body
+	ABigMin              // min_{v<N} body
 )
 
 type Atom struct {
@@ -67,7 +67,61 @@ type Facts map[string]Sign
 // evaluation (the checker is single-threaded per evaluation).
 var ActiveFacts Facts
 
+// PositiveSym, when set, tells whether a real symbol is known to be strictly positive (dimension sizes).
+var PositiveSym func(name string) bool
+
+// provablyPositive is a syntactic sign analysis: sums and products of positive things, sqrt/exp/cosh of
+// anything admissible, powers of positive bases.
+func provablyPositive(e Expr) bool {
+	if len(e.terms) == 0 {
+		return false
+	}
+	for _, t := range e.terms {
+		if t.c.Sign() <= 0 {
+			return false
+		}
+		for _, f := range t.f {
+			if !atomPositive(f.a) {
+				return false
+			}
+		}
+	}
+	return true
+}
+
+func atomPositive(a *Atom) bool {
+	switch a.Kind {
+	case ASym:
+		return PositiveSym != nil && PositiveSym(a.Name)
+	case AFn:
+		switch a.Name {
+		case "exp", "cosh":
+			return true
+		case "sqrt":
+			return provablyPositive(a.Args[0])
+		}
+	case APow:
+		return provablyPositive(a.Args[0])
+	case ASum:
+		return provablyPositive(a.Args[0])
+	}
+	return false
+}
+
 func signOf(e Expr) Sign {
+	if s := signOfCore(e); s != SignUnknown {
+		return s
+	}
+	if provablyPositive(e) {
+		return SignBigPos
+	}
+	if provablyPositive(Neg(e)) {
+		return SignBigNeg
+	}
+	return SignUnknown
+}
+
+func signOfCore(e Expr) Sign {
 	if ActiveFacts == nil {
 		if r, ok := e.Const(); ok {
 			switch r.Sign() {
@@ -1178,4 +1232,90 @@ func OnlyInverseSizes(e Expr) bool {
 		}
 	}
 	return true
+}
+
+// Folder evaluates an expression in some abstract domain (used for the interval domain).
+type Folder interface {
+	Const(f float64) any
+	Sym(name string) any
+	Leaf(name string) any
+	Add(a, b any) any
+	Mul(a, b any) any
+	PowInt(a any, k int) any
+	Pow(a, b any) any
+	Ind() any
+	SumN(a any) any
+	MaxN(a any) any
+	Fn(name string, args []any) any
+}
+
+func (e Expr) FoldIval(f Folder) any {
+	var acc any
+	if len(e.terms) == 0 {
+		return f.Const(0)
+	}
+	for i, t := range e.terms {
+		c, _ := t.c.Float64()
+		x := f.Const(c)
+		for _, fc := range t.f {
+			x = f.Mul(x, f.PowInt(fc.a.fold(f), fc.e))
+		}
+		if i == 0 {
+			acc = x
+		} else {
+			acc = f.Add(acc, x)
+		}
+	}
+	return acc
+}
+
+func (a *Atom) fold(f Folder) any {
+	switch a.Kind {
+	case ASym:
+		return f.Sym(a.Name)
+	case ALeaf:
+		return f.Leaf(a.Name)
+	case AFn:
+		args := make([]any, len(a.Args))
+		for i, x := range a.Args {
+			args[i] = x.FoldIval(f)
+		}
+		if len(args) == 0 {
+			return f.Fn(a.Name, []any{f.Const(0)})
+		}
+		return f.Fn(a.Name, args)
+	case APow:
+		return f.Pow(a.Args[0].FoldIval(f), a.Args[1].FoldIval(f))
+	case ASum:
+		return a.Args[0].FoldIval(f)
+	case AInd:
+		return f.Ind()
+	case ASigma:
+		return f.SumN(a.Args[0].FoldIval(f))
+	case ABigMax, ABigMin:
+		return f.MaxN(a.Args[0].FoldIval(f))
+	}
+	return f.Const(0)
+}
+
+// Constants lists the numeric constants occurring in e (coefficients and nested), as floats.
+func (e Expr) Constants() []float64 {
+	var out []float64
+	var walkE func(x Expr)
+	walkE = func(x Expr) {
+		for _, t := range x.terms {
+			c, _ := t.c.Float64()
+			out = append(out, c)
+			for _, f := range t.f {
+				for _, a := range f.a.Args {
+					walkE(a)
+				}
+				if f.a.Cond != nil {
+					f.a.Cond.walkExprs(walkE)
+				}
+			}
+		}
+	}
+	walkE(e)
+	return out
 }
